@@ -59,6 +59,10 @@ class NDesc(object):
         self.script = {}
         self.history = []       # event ids
         self.cb_slot = {}
+        self.models = 1         # number of models on the machine
+        self.mhist = []         # model of every history item (empty = all on model 0)
+        self.falsy = []         # per model: 0 truthy, 1 always falsy (__bool__), 2 falsy during its odd-numbered calls
+        self.suspend = {}       # callback id -> number of times it really suspends (async classes only)
 
     # -- traversal ----------------------------------------------------------------------------
     def walk(self):
@@ -139,10 +143,21 @@ class NDesc(object):
     def enc_case(self):
         return self.enc_cfg() + self.enc_script() + _l(self.history)
 
+    def model_of(self, k):
+        return self.mhist[k] if k < len(self.mhist) else 0
+
+    def history_of(self, m):
+        return [ev for k, ev in enumerate(self.history) if self.model_of(k) == m]
+
+    def enc_case_model(self, m):
+        """the case as model `m` sees it: models of one machine are independent, script counters are per model"""
+        return self.enc_cfg() + self.enc_script() + _l(self.history_of(m))
+
     def to_json(self):
         d = copy.deepcopy(self.__dict__)
         d['script'] = [[list(k), [list(map(list, v[0])), list(v[1])]] for k, v in sorted(self.script.items())]
         d['cb_slot'] = sorted(self.cb_slot.items())
+        d['suspend'] = sorted(self.suspend.items())
         return d
 
     @staticmethod
@@ -152,6 +167,10 @@ class NDesc(object):
         x.__dict__.update(j)
         x.script = {tuple(k): ([tuple(c) for c in v[0]], tuple(v[1])) for k, v in j['script']}
         x.cb_slot = {k: v for k, v in j['cb_slot']}
+        x.suspend = {k: v for k, v in j.get('suspend', [])}
+        x.models = j.get('models', 1)
+        x.mhist = list(j.get('mhist', []))
+        x.falsy = list(j.get('falsy', []))
 
         def fix_events(evs):
             out = []
@@ -241,6 +260,9 @@ class NKnobs(object):
         self.p_extra_cb = 0.2
         self.p_ignore = 0.25
         self.p_deep_initial = 0.3   # machine initial is a nested path
+        self.max_models = 1         # models on one machine (each history item goes to one of them)
+        self.p_falsy = 0.0          # a model is falsy (always / on its odd-numbered calls)
+        self.p_suspend = 0.0        # an on_enter / on_exit callback really suspends (1-3 times) on the async classes
         self.__dict__.update(kw)
 
 
@@ -400,6 +422,14 @@ def gen_nested(rng, kn):
                 d.script[(c, k)] = (cmds, out)
     d.history = [(rng.choice(known or [0]) if rng.random() >= kn.p_unknown_event else nev + 3)
                  for _ in range(rng.randint(1, kn.max_history))]
+    if kn.max_models > 1:
+        d.models = rng.randint(2, kn.max_models)
+        d.mhist = [rng.randrange(d.models) for _ in d.history]
+        d.falsy = [(rng.choice([1, 2]) if rng.random() < kn.p_falsy else 0) for _ in range(d.models)]
+    if kn.p_suspend > 0:
+        for c, slot in sorted(d.cb_slot.items()):
+            if slot in (SLOT['on_enter'], SLOT['on_exit']) and rng.random() < kn.p_suspend:
+                d.suspend[c] = rng.randint(1, 3)
     return d
 
 
@@ -409,6 +439,32 @@ def gen_nested(rng, kn):
 
 class CaseTimeout(Exception):
     pass
+
+
+class BoolModel(flat.RecModel):
+    """a recording model whose truth value the harness controls (`__bool__`): an ordinary object that happens to be
+    falsy at some moments, like a container that is empty"""
+
+    def __init__(self, mid, run):
+        flat.RecModel.__init__(self, mid, run)
+        self.__dict__['_truthy'] = True
+
+    def __bool__(self):
+        return self.__dict__['_truthy']
+
+    __nonzero__ = __bool__
+
+
+class View(object):
+    """what one model of the machine saw: its items, its state after each of its own calls"""
+
+    def __init__(self):
+        self.items = []
+        self.counts = {}
+        self.next_tag = 0
+        self.bad = []
+        self.states_after = []
+        self.calls = 0
 
 
 class NestedRun(object):
@@ -423,17 +479,27 @@ class NestedRun(object):
         if enum:
             self._make_enums()
         self.is_async = 'Async' in cls_name
-        self.items = []
-        self.counts = {}
-        self.next_tag = 0
-        self.bad = []
-        self.states_after = []
+        self.views = {m: View() for m in range(max(1, desc.models))}
         self.index = {pname(p): i for i, (p, _n) in enumerate(desc.walk())}
         self.nstates = len(self.index)
-        self.model = flat.RecModel(0, self)
+        self.model_objs = [BoolModel(m, self) for m in range(max(1, desc.models))]
+        self.model = self.model_objs[0]
         self.loop = asyncio.new_event_loop() if self.is_async else None
         cls, kw = get_cls(cls_name)
         self.machine = self.build(cls, kw)
+
+    # model 0's view under the old names (single-model consumers)
+    @property
+    def items(self):
+        return self.views[0].items
+
+    @property
+    def bad(self):
+        return self.views[0].bad
+
+    @property
+    def states_after(self):
+        return self.views[0].states_after
 
     def close(self):
         if self.loop is not None:
@@ -497,7 +563,8 @@ class NestedRun(object):
 
     def build(self, cls, extra):
         d = self.d
-        kw = dict(model=self.model, states=[self.node_def(n) for n in d.roots],
+        kw = dict(model=(self.model if len(self.model_objs) == 1 else list(self.model_objs)),
+                  states=[self.node_def(n) for n in d.roots],
                   transitions=[self.trans_def(ev, t) for ev, ts in d.events for t in ts],
                   initial=self.sref(d.initial), send_event=False, auto_transitions=False,
                   ignore_invalid_triggers=d.ignore, queued=d.queued,
@@ -516,117 +583,148 @@ class NestedRun(object):
             return self.member_path[v]
         return v
 
-    def mask(self):
-        v = self.names_of(getattr(self.model, 'state', None))
+    def mask(self, mid=0):
+        v = self.names_of(getattr(self.model_objs[mid], 'state', None))
         m = 0
         try:
             for name in flatten(v):
                 i = self.index.get(name)
                 if i is None:
-                    self.bad.append(('unregistered-state-name', repr(v)))
+                    self.views[mid].bad.append(('unregistered-state-name', repr(v)))
                     i = self.nstates
                 m += 2 ** i
         except Exception:
-            self.bad.append(('odd-state', repr(v)))
+            self.views[mid].bad.append(('odd-state', repr(v)))
         return m
 
     def _begin(self, model, slot, cid, args, kwargs):
+        mid = model._mid
+        vw = self.views[mid]
         tag = args[0] if (len(args) == 1 and isinstance(args[0], int)) else -1
-        if tag < 0 or kwargs != {'m': 0}:
-            self.bad.append(('bad-args', slot, cid, repr(args)[:80], repr(kwargs)[:80]))
+        if tag < 0 or kwargs != {'m': mid}:
+            vw.bad.append(('bad-args', slot, cid, repr(args)[:80], repr(kwargs)[:80]))
             tag = max(tag, 0)
-        k = self.counts.get(cid, 0)
-        self.counts[cid] = k + 1
-        self.items.append(('call', slot, cid, 0, tag, self.mask()))
+        k = vw.counts.get(cid, 0)
+        vw.counts[cid] = k + 1
+        vw.items.append(('call', slot, cid, 0, tag, self.mask(mid)))
         return self.d.script.get((cid, k), ((), ('ret', True)))
 
-    def _end(self, cid, out):
+    def _end(self, mid, cid, out):
+        vw = self.views[mid]
         if out[0] == 'ret':
-            self.items.append(('done', cid, 0, int(bool(out[1])), 0))
+            vw.items.append(('done', cid, 0, int(bool(out[1])), 0))
             return out[1]
-        self.items.append(('done', cid, 1, out[1], out[2]))
+        vw.items.append(('done', cid, 1, out[1], out[2]))
         raise flat.make_exc(out[1], out[2])
 
     def invoke(self, model, slot, cid, *args, **kwargs):
+        mid = model._mid
         cmds, out = self._begin(model, slot, cid, args, kwargs)
-        if cmds and self.is_async:
-            return self._ainvoke(cid, cmds, out)
+        nsusp = self.d.suspend.get(cid, 0) if self.is_async else 0
+        if (cmds or nsusp) and self.is_async:
+            return self._ainvoke(mid, cid, cmds, out, nsusp)
         try:
             for c in cmds:
-                self.trigger(c[2])
+                self.trigger(c[2], mid)
         except BaseException as e:
-            self.items.append(('done', cid, 1) + flat.canon_exc(e))
+            self.views[mid].items.append(('done', cid, 1) + flat.canon_exc(e))
             raise
-        return self._end(cid, out)
+        return self._end(mid, cid, out)
 
-    async def _ainvoke(self, cid, cmds, out):
+    async def _ainvoke(self, mid, cid, cmds, out, nsusp=0):
         try:
+            for _ in range(nsusp):
+                await asyncio.sleep(0)          # a real suspension: other coroutines of a gather get to run
             for c in cmds:
-                await self.atrigger(c[2])
+                await self.atrigger(c[2], mid)
         except BaseException as e:
-            self.items.append(('done', cid, 1) + flat.canon_exc(e))
+            self.views[mid].items.append(('done', cid, 1) + flat.canon_exc(e))
             raise
-        return self._end(cid, out)
+        return self._end(mid, cid, out)
 
     # -- API calls ---------------------------------------------------------------------------
-    def _call(self, ev, tag):
+    def _call(self, ev, tag, mid):
+        mo = self.model_objs[mid]
         # known events alternate between the convenience method and trigger-by-name
-        if tag % 2 == 0 and hasattr(self.model, flat.ename(ev)):
-            return getattr(self.model, flat.ename(ev))(tag, m=0)
-        return self.model.trigger(flat.ename(ev), tag, m=0)
+        if tag % 2 == 0 and hasattr(mo, flat.ename(ev)):
+            return getattr(mo, flat.ename(ev))(tag, m=mid)
+        return mo.trigger(flat.ename(ev), tag, m=mid)
 
-    def trigger(self, ev):
-        tag = self.next_tag
-        self.next_tag += 1
-        self.items.append(('api', 0, tag, 0, ev))
+    def trigger(self, ev, mid=0):
+        vw = self.views[mid]
+        tag = vw.next_tag
+        vw.next_tag += 1
+        vw.items.append(('api', 0, tag, 0, ev))
         try:
-            r = self._call(ev, tag)
+            r = self._call(ev, tag, mid)
         except BaseException as e:
             if isinstance(e, (common.MachineryError, CaseTimeout)):
                 raise
-            self.items.append(('raised', tag) + flat.canon_exc(e))
+            vw.items.append(('raised', tag) + flat.canon_exc(e))
             raise
-        self.items.append(('ret', tag, int(bool(r))))
+        vw.items.append(('ret', tag, int(bool(r))))
         return r
 
-    async def atrigger(self, ev):
-        tag = self.next_tag
-        self.next_tag += 1
-        self.items.append(('api', 0, tag, 0, ev))
+    async def atrigger(self, ev, mid=0):
+        vw = self.views[mid]
+        tag = vw.next_tag
+        vw.next_tag += 1
+        vw.items.append(('api', 0, tag, 0, ev))
         try:
-            r = self._call(ev, tag)
+            r = self._call(ev, tag, mid)
             if inspect.isawaitable(r):
                 r = await r
         except BaseException as e:
             if isinstance(e, (common.MachineryError, CaseTimeout)):
                 raise
-            self.items.append(('raised', tag) + flat.canon_exc(e))
+            vw.items.append(('raised', tag) + flat.canon_exc(e))
             raise
-        self.items.append(('ret', tag, int(bool(r))))
+        vw.items.append(('ret', tag, int(bool(r))))
         return r
 
-    def state_value(self):
-        v = copy.deepcopy(self.names_of(getattr(self.model, 'state', None)))
+    def state_value(self, mid=0):
+        v = copy.deepcopy(self.names_of(getattr(self.model_objs[mid], 'state', None)))
         try:
             enc_sval(v)
         except Exception:
-            self.bad.append(('odd-state', repr(v)))
+            self.views[mid].bad.append(('odd-state', repr(v)))
         return v
 
     def run(self):
-        self.states_after.append(self.state_value())
+        d = self.d
+        last = {}
+        for m in self.views:
+            last[m] = self.state_value(m)
+            self.views[m].states_after.append(last[m])
         try:
-            for ev in self.d.history:
+            for k, ev in enumerate(d.history):
+                mid = d.model_of(k)
+                vw = self.views[mid]
+                # truth value of the models at this moment
+                for m, mo in enumerate(self.model_objs):
+                    f = d.falsy[m] if m < len(d.falsy) else 0
+                    mo.__dict__['_truthy'] = not (f == 1 or (f == 2 and self.views[m].calls % 2 == 1))
+                vw.calls += 1
                 try:
                     if self.is_async:
-                        self.loop.run_until_complete(self.atrigger(ev))
+                        self.loop.run_until_complete(self.atrigger(ev, mid))
                     else:
-                        self.trigger(ev)
+                        self.trigger(ev, mid)
                 except BaseException as e:
                     if isinstance(e, (common.MachineryError, KeyboardInterrupt, CaseTimeout)):
                         raise
-                self.states_after.append(self.state_value())
+                for m in self.views:
+                    now = self.state_value(m)
+                    if m == mid:
+                        vw.states_after.append(now)
+                    elif now != last[m]:
+                        # the per-model clause: an event of one model leaves every other model's configuration alone
+                        self.views[m].bad.append(('moved-by-other-model', 'event %d of model %d' % (k, mid),
+                                                  repr(last[m])[:80], repr(now)[:80]))
+                    last[m] = now
         finally:
+            for mo in self.model_objs:
+                mo.__dict__['_truthy'] = True
             self.close()
         return self
 
